@@ -3,6 +3,7 @@ package rules
 import (
 	"fmt"
 	"go/ast"
+	"go/constant"
 	"go/token"
 	"go/types"
 	"strings"
@@ -38,6 +39,9 @@ var npFlags map[types.Object][]nilFact
 // npBools: boolean locals defined exactly once from a non-constant expression (`isNamed := dimension.Name != nil`):
 // testing the local is testing that expression.
 var npBools map[types.Object]ast.Expr
+
+// npCalls: locals defined exactly once from a call (`k := indexOfDimensionNamed(dims, name)`).
+var npCalls map[types.Object]*ast.CallExpr
 
 func exprKey(info *types.Info, e ast.Expr) string {
 	switch x := ast.Unparen(e).(type) {
@@ -529,11 +533,33 @@ func ruleOptionalDeref(fileScope func(string) bool, ruleID string, min int) func
 				if !ok {
 					return true
 				}
-				se, ok := optionalField(info, star.X)
-				if !ok {
+				if tv, ok := info.Types[star]; ok && tv.IsType() {
 					return true
 				}
-				if tv, ok := info.Types[star]; ok && tv.IsType() {
+				se, ok := optionalField(info, star.X)
+				if !ok {
+					// a parameter that is a pointer to a scalar or a slice: callers hand optional fields to it
+					if id, isId := ast.Unparen(star.X).(*ast.Ident); isId && optionalParam(info, d, id) {
+						k := exprKey(info, id)
+						key := fmt.Sprintf("%s/*%s", c.FuncName(d), id.Name)
+						seen[key]++
+						if seen[key] > 1 {
+							key += "#" + itoa(seen[key])
+						}
+						held := false
+						for _, f := range na.factsAt(info, d.Body, star) {
+							if f.key == k {
+								held = true
+							}
+						}
+						if held {
+							c.OK(ruleID, key, star.Pos(), "the pointer parameter is tested non-nil on every path here")
+						} else if why := na.callerParamFact(info, d, id); why != "" {
+							c.OK(ruleID, key, star.Pos(), why)
+						} else {
+							c.Bad(ruleID, key, star.Pos(), fmt.Sprintf("`*%s` dereferences a pointer parameter that callers fill from optional fields, without a nil test on the way: an input that leaves the field out panics here", id.Name))
+						}
+					}
 					return true
 				}
 				k := exprKey(info, se)
@@ -594,6 +620,11 @@ func ruleOptionalDeref(fileScope func(string) bool, ruleID string, min int) func
 						okFact = why
 					}
 				}
+				if okFact == "" {
+					if why := na.finderFact(info, d, se, star); why != "" {
+						okFact = why
+					}
+				}
 				if okFact != "" {
 					c.OK(ruleID, key, star.Pos(), okFact)
 				} else {
@@ -614,6 +645,7 @@ func (na *nilAnalyzer) prepare(info *types.Info, d *ast.FuncDecl) {
 	npAliases = map[types.Object]ast.Expr{}
 	npFlags = map[types.Object][]nilFact{}
 	npBools = map[types.Object]ast.Expr{}
+	npCalls = map[types.Object]*ast.CallExpr{}
 	defs := map[types.Object][]ast.Expr{}
 	defStmt := map[types.Object][]ast.Stmt{}
 	ast.Inspect(d.Body, func(n ast.Node) bool {
@@ -667,6 +699,9 @@ func (na *nilAnalyzer) prepare(info *types.Info, d *ast.FuncDecl) {
 					npAliases[o] = ds[0]
 				}
 			case *ast.BinaryExpr, *ast.UnaryExpr, *ast.CallExpr:
+				if ce, isCall := ast.Unparen(ds[0]).(*ast.CallExpr); isCall && !isBoolType(o.Type()) {
+					npCalls[o] = ce
+				}
 				if isBoolType(o.Type()) {
 					if tv, has := info.Types[ds[0]]; has && tv.Value == nil {
 						npBools[o] = ds[0]
@@ -844,8 +879,8 @@ func (na *nilAnalyzer) callerFact(info *types.Info, d *ast.FuncDecl, se *ast.Sel
 		}
 	}
 	sites := 0
-	savedAliases, savedFlags, savedBools := npAliases, npFlags, npBools
-	defer func() { npAliases, npFlags, npBools = savedAliases, savedFlags, savedBools }()
+	savedAliases, savedFlags, savedBools, savedCalls := npAliases, npFlags, npBools, npCalls
+	defer func() { npAliases, npFlags, npBools, npCalls = savedAliases, savedFlags, savedBools, savedCalls }()
 	for _, od := range na.c.AllDecls() {
 		if od.Body == nil || na.c.DeclPkg(od) == nil {
 			continue
@@ -886,4 +921,297 @@ func (na *nilAnalyzer) callerFact(info *types.Info, d *ast.FuncDecl, se *ast.Sel
 		return ""
 	}
 	return fmt.Sprintf("established by the caller at every call site (%d)", sites)
+}
+
+// finderFact: `*S[k].F` where k is the result of an index-finding helper `k := find(S, ...)` that returns either a
+// negative constant or an index i at a point where S[i].F is known non-nil, and k is known non-negative at the use.
+func (na *nilAnalyzer) finderFact(info *types.Info, d *ast.FuncDecl, se *ast.SelectorExpr, use ast.Node) string {
+	ix, ok := ast.Unparen(se.X).(*ast.IndexExpr)
+	if !ok {
+		return ""
+	}
+	kid, ok := ast.Unparen(ix.Index).(*ast.Ident)
+	if !ok {
+		return ""
+	}
+	kobj := info.ObjectOf(kid)
+	call, ok := npCalls[kobj]
+	if !ok {
+		return ""
+	}
+	f := core.Callee(info, call)
+	if f == nil || !core.InModule(f) {
+		return ""
+	}
+	fd := na.c.Decl(f.Origin())
+	if fd == nil || fd.Body == nil || fd.Type.Results == nil || len(fd.Type.Results.List) != 1 {
+		return ""
+	}
+	// which argument is the slice
+	sliceKey := exprKey(info, ix.X)
+	pi := -1
+	for i, a := range call.Args {
+		if k := exprKey(info, a); k != "" && k == sliceKey {
+			pi = i
+		}
+	}
+	if pi < 0 {
+		return ""
+	}
+	finfo := na.c.DeclPkg(fd).TypesInfo
+	params := paramObjs(finfo, fd)
+	if pi >= len(params) || params[pi] == nil {
+		return ""
+	}
+	// k is non-negative at the use
+	if !nonNegativeAt(info, d.Body, kobj, use) {
+		return ""
+	}
+	savedAliases, savedFlags, savedBools, savedCalls := npAliases, npFlags, npBools, npCalls
+	defer func() { npAliases, npFlags, npBools, npCalls = savedAliases, savedFlags, savedBools, savedCalls }()
+	na.prepare(finfo, fd)
+	good, rets := true, 0
+	ast.Inspect(fd.Body, func(n ast.Node) bool {
+		if _, isLit := n.(*ast.FuncLit); isLit {
+			good = false
+			return false
+		}
+		ret, ok := n.(*ast.ReturnStmt)
+		if !ok {
+			return true
+		}
+		rets++
+		if len(ret.Results) != 1 {
+			good = false
+			return true
+		}
+		if tv, ok := finfo.Types[ret.Results[0]]; ok && tv.Value != nil {
+			if v, exact := constant.Int64Val(tv.Value); exact && v < 0 {
+				return true
+			}
+			good = false
+			return true
+		}
+		rid, ok := ast.Unparen(ret.Results[0]).(*ast.Ident)
+		if !ok {
+			good = false
+			return true
+		}
+		want := fmt.Sprintf("%s@%d[%s].%s", params[pi].Name(), params[pi].Pos(), rid.Name, se.Sel.Name)
+		has := false
+		for _, ft := range na.factsAt(finfo, fd.Body, ret) {
+			if ft.key == want {
+				has = true
+			}
+		}
+		if !has {
+			good = false
+		}
+		return true
+	})
+	if !good || rets == 0 {
+		return ""
+	}
+	return fmt.Sprintf("the index comes from %s, which returns only indexes whose element has the field, or a negative value that is excluded here", f.Name())
+}
+
+// nonNegativeAt: on the way to `use`, the int local k was tested: an enclosing `if k >= 0` / `k != -1`, or an
+// earlier `if k < 0 { leave }` / `k == -1` in a block that encloses the use.
+func nonNegativeAt(info *types.Info, body *ast.BlockStmt, k types.Object, use ast.Node) bool {
+	isK := func(e ast.Expr) bool {
+		id, ok := ast.Unparen(e).(*ast.Ident)
+		return ok && info.ObjectOf(id) == k
+	}
+	constOf := func(e ast.Expr) (int64, bool) {
+		if tv, ok := info.Types[e]; ok && tv.Value != nil {
+			return constant.Int64Val(tv.Value)
+		}
+		return 0, false
+	}
+	// truth value of cond that implies k >= 0: returns (whenTrue, whenFalse)
+	var implies func(cond ast.Expr) (bool, bool)
+	implies = func(cond ast.Expr) (bool, bool) {
+		switch x := ast.Unparen(cond).(type) {
+		case *ast.UnaryExpr:
+			if x.Op == token.NOT {
+				a, b := implies(x.X)
+				return b, a
+			}
+		case *ast.BinaryExpr:
+			switch x.Op {
+			case token.LAND:
+				a1, _ := implies(x.X)
+				a2, _ := implies(x.Y)
+				return a1 || a2, false
+			case token.LOR:
+				_, b1 := implies(x.X)
+				_, b2 := implies(x.Y)
+				return false, b1 || b2
+			}
+			if isK(x.X) {
+				if v, ok := constOf(x.Y); ok {
+					switch {
+					case x.Op == token.GEQ && v >= 0, x.Op == token.GTR && v >= -1:
+						return true, false
+					case x.Op == token.LSS && v <= 0, x.Op == token.LEQ && v <= -1:
+						return false, true
+					case x.Op == token.NEQ && v == -1:
+						return true, false // finder results are -1 or an index
+					case x.Op == token.EQL && v == -1:
+						return false, true
+					}
+				}
+			}
+		}
+		return false, false
+	}
+	found := false
+	var walk func(list []ast.Stmt)
+	walk = func(list []ast.Stmt) {
+		for _, st := range list {
+			if st.Pos() > use.Pos() {
+				return
+			}
+			contains := st.Pos() <= use.Pos() && use.End() <= st.End()
+			switch s := st.(type) {
+			case *ast.IfStmt:
+				t, f := implies(s.Cond)
+				if !contains && f && s.Else == nil && stmtLeaves(s.Body) {
+					found = true
+				}
+				if contains {
+					if t && s.Body.Pos() <= use.Pos() && use.End() <= s.Body.End() {
+						found = true
+					}
+					walk(s.Body.List)
+					switch e := s.Else.(type) {
+					case *ast.BlockStmt:
+						if f && e.Pos() <= use.Pos() && use.End() <= e.End() {
+							found = true
+						}
+						walk(e.List)
+					case *ast.IfStmt:
+						walk([]ast.Stmt{e})
+					}
+				}
+			case *ast.ForStmt:
+				if contains {
+					walk(s.Body.List)
+				}
+			case *ast.RangeStmt:
+				if contains {
+					walk(s.Body.List)
+				}
+			case *ast.BlockStmt:
+				if contains {
+					walk(s.List)
+				}
+			case *ast.SwitchStmt:
+				if contains {
+					for _, cl := range s.Body.List {
+						walk(cl.(*ast.CaseClause).Body)
+					}
+				}
+			case *ast.TypeSwitchStmt:
+				if contains {
+					for _, cl := range s.Body.List {
+						walk(cl.(*ast.CaseClause).Body)
+					}
+				}
+			}
+		}
+	}
+	walk(body.List)
+	return found
+}
+
+// optionalParam: id names a parameter of d whose type is a pointer to a basic type or to a slice.
+func optionalParam(info *types.Info, d *ast.FuncDecl, id *ast.Ident) bool {
+	o := info.ObjectOf(id)
+	if o == nil {
+		return false
+	}
+	isParam := false
+	for _, po := range paramObjs(info, d) {
+		if po == o {
+			isParam = true
+		}
+	}
+	if !isParam {
+		return false
+	}
+	pt, ok := o.Type().Underlying().(*types.Pointer)
+	if !ok {
+		return false
+	}
+	switch pt.Elem().Underlying().(type) {
+	case *types.Basic, *types.Slice:
+		return true
+	}
+	return false
+}
+
+// callerParamFact: every call site of the unexported function d passes a value known non-nil for the parameter.
+func (na *nilAnalyzer) callerParamFact(info *types.Info, d *ast.FuncDecl, id *ast.Ident) string {
+	// exported functions count too: the module is the whole program (yardl is a binary), and what is asked is
+	// whether an INPUT of yardl can reach the dereference with a nil pointer
+	if d.Recv != nil {
+		return ""
+	}
+	me, _ := info.Defs[d.Name].(*types.Func)
+	if me == nil {
+		return ""
+	}
+	pi := -1
+	for i, po := range paramObjs(info, d) {
+		if po == info.ObjectOf(id) {
+			pi = i
+		}
+	}
+	if pi < 0 {
+		return ""
+	}
+	for _, od := range na.c.AllDecls() {
+		for _, r := range na.c.Refs(od) {
+			if r.Origin() == me {
+				return ""
+			}
+		}
+	}
+	savedAliases, savedFlags, savedBools, savedCalls := npAliases, npFlags, npBools, npCalls
+	defer func() { npAliases, npFlags, npBools, npCalls = savedAliases, savedFlags, savedBools, savedCalls }()
+	sites := 0
+	for _, od := range na.c.AllDecls() {
+		if od.Body == nil || na.c.DeclPkg(od) == nil {
+			continue
+		}
+		for _, cs := range na.c.Calls(od) {
+			if cs.Callee == nil || cs.Callee.Origin() != me || pi >= len(cs.Call.Args) {
+				continue
+			}
+			sites++
+			oinfo := na.c.DeclPkg(od).TypesInfo
+			arg := cs.Call.Args[pi]
+			if nonNilValue(oinfo, arg) {
+				continue
+			}
+			na.prepare(oinfo, od)
+			k := exprKey(oinfo, arg)
+			held := false
+			if k != "" {
+				for _, f := range na.factsAt(oinfo, od.Body, cs.Call) {
+					if f.key == k {
+						held = true
+					}
+				}
+			}
+			if !held {
+				return ""
+			}
+		}
+	}
+	if sites == 0 {
+		return ""
+	}
+	return fmt.Sprintf("every call site (%d) passes a value known to be non-nil", sites)
 }
